@@ -86,6 +86,7 @@ def run(ctx):
     leaf.check_pending_registered(ctx, "R01.4d")
     init = r01_5(ctx, notify, closes[0], sentinel)
     r01_6(ctx, init)
+    r01_6b(ctx)
     r01_7(ctx, init)
     r01_8(ctx)
     r01_9(ctx)
@@ -477,6 +478,41 @@ def r01_6(ctx, init):
                 n += 1
                 ctx.undecided("R01.6", f, "other-writer", b.line_at(loc), "unlisted writer of observed_version: %s" % fmt(e, 4))
     ctx.floor("R01.6", n, 9 if not ctx.has_async else 14)
+
+
+def r01_6b(ctx):
+    """re-pointing: a function that replaces the `state` handle of an existing Subscriber (assignment, Clone::clone_from,
+    mem::replace / swap on `self.state`) makes it a subscriber of (possibly) another observable; it must take over the
+    source's observed version in the same function, otherwise the subscriber reports updates it has seen / skips ones it has
+    not. Expected count 0 on today's tree (only constructors write `state`)."""
+    F = ctx.facts
+    n = 0
+    for f in F.find(crate=EY):
+        st = f.raw.get("self_ty") or ""
+        b = f.built
+        if not b or not st.startswith("subscriber::Subscriber<") or b.arg_count < 1:
+            continue
+        if not str(b.locals[1]["ty"]).startswith("&mut subscriber::Subscriber<"):
+            continue
+        sites = []
+        for loc, s_ in b.iter_stmts():
+            if s_["k"] == "assign" and s_["place"]["proj"] and last_field(s_["place"]) == "state" and s_["place"]["l"] == 1:
+                sites.append(b.line_at(loc))
+        for blk, t in b.calls(r"Clone>?::clone_from$|^std::mem::(replace|swap)$"):
+            for a_ in t["args"][:2 if "swap" in (t.get("callee") or "") else 1]:
+                x = strip(b.expr_of_op(a_))
+                if x[0] == "field" and x[2] == "state" and contains(x[1], lambda y: y[0] == "param" and y[1] == 1):
+                    sites.append(b.line_at((blk, 10 ** 6)))
+        if not sites:
+            continue
+        n += 1
+        wrote = [loc for loc, s_ in b.iter_stmts() if s_["k"] == "assign" and last_field(s_["place"]) == "observed_version"]
+        ok = bool(wrote) and b.post_dominated_by(0, [l_[0] for l_ in wrote])
+        ctx.verdict(ok, "R01.6b", f, "re-pointed-subscriber-takes-over-the-observed-version", sites[0],
+                    "`%s` replaces self.state and stores observed_version on every path" % f.name,
+                    "`%s` replaces the `state` handle of an existing subscriber but does not (on every path) store the matching `observed_version`: the subscriber keeps the version it had observed on its previous observable, so it wrongly stays pending or wrongly becomes ready" % f.path)
+    if not n:
+        ctx.holds("R01.6b", None, "no-re-pointing", None, "no function replaces the state handle of an existing Subscriber")
 
 
 def r01_7(ctx, init):
